@@ -126,7 +126,11 @@ CHECKS = {
              "CassiniSoldner and Intersect every output of a solver or line call that is consumed (stored to a result, "
              "returned, branched on, stored in a member) was requested by the mask that call passes - forwarding "
              "overloads are resolved to their constant masks - and, for lines built in place (Gnomonic::Reverse's line, "
-             "CassiniSoldner's _meridian and perp), lies within the capabilities the line was constructed with.",
+             "CassiniSoldner's _meridian and perp), lies within the capabilities the line was constructed with. For "
+             "NearestNeighbor (header-only, analysed through an explicit instantiation) the error clauses of the "
+             "save/load sentence: throw type (X1), outputs committed last (X3), every loop bounded or audited (X6), and "
+             "the documented strong guarantee of Initialize/Load - no member is written before the last may-throw "
+             "point (X3m).",
         note="NARROW: projection geometry, intersection optimality/completeness, nearest-neighbour search and save/load are "
              "NOT decided. Lines received as parameters are assumed to have the documented capabilities (A-CAPS-PARAM). "
              "Four locals of Gnomonic::Reverse are audited (loop runs at least once).",
